@@ -638,7 +638,16 @@ class Array(metaclass=MetaArray):
     def _update(self, value):
         if is_integer(value):
             ll = value
-            fits = len(self) == ll
+            dynamic = [dd is None for dd in self.__class__._shape]
+            if sum(dynamic) == 1:
+                # an integer is the length of the dynamic dimension, not the
+                # number of items
+                shape = [
+                    ll if dyn else dd for dyn, dd in zip(dynamic, self._shape)
+                ]
+                fits = tuple(shape) == tuple(self._shape)
+            else:
+                fits = len(self) == ll
         else:
             ll = len(value)
             shape = get_shape_from_array(value, len(self._shape))
